@@ -83,7 +83,13 @@ class SimProcess:
         canary.ACTIVE[0] = True
         cap = 40_000
         hard = min(kill_at, cap) if kill_at is not None else cap
-        world.CLOCK.start(budget=None, kill_at=hard, count_string=True)
+        def on_kill():
+            # the child is dead from this instant: nothing it does while the simulated kill unwinds reaches the manager
+            for a in self.args:
+                if hasattr(a, "freeze"):
+                    a.freeze()
+
+        world.CLOCK.start(budget=None, kill_at=hard, count_string=True, on_kill=on_kill)
         try:
             with world.rec_limit():
                 self.target(*self.args)
@@ -108,6 +114,9 @@ class SimProcess:
             self.finished = True
         finally:
             sim.child_steps = world.CLOCK.stop()
+            for a in self.args:  # the unwinding child is gone; the parent (flask handler) may write to the record again
+                if hasattr(a, "freeze"):
+                    a.dead = False
             sys.stdout, sys.stderr = old
             canary.ACTIVE[0] = False
             chk.out = None
